@@ -64,7 +64,7 @@ class Flow:
         fi = callee.fn
         offset = 0
         if fi.cls is not None and callee.how in ("cha", "method", "bound",
-                                                 "byname", "field", "ctor"):
+                                                 "byname", "field", "ctor", "super"):
             offset = 1
         i = param_index - offset
         if i < 0:
